@@ -256,6 +256,9 @@ class Gen:
             row["appearance"] = rng.choice(["search('fruits')", "minimal search('fruits', 'contains', 'name', ${%s})" % rng.choice(self.top_questions) if self.top_questions else "search('x')", "search('a.b')", "quick search('pd')"])
             if rng.random() < 0.25:
                 row["choice_filter"] = self.choice_filter()
+            if rng.random() < 0.15:
+                # a select that has only a hint: its in-line items still carry the choice labels (51586cd)
+                row["hint"] = row.pop("label")
         elif v == "file":
             cmd = rng.choice(["select_one_from_file", "select_multiple_from_file", "select one from file",
                               "select multiple from file", "select_one", "select_multiple"])
